@@ -52,6 +52,9 @@ type c47Member struct {
 	eventPending       bool
 	submits            int
 	regFault           bool
+	parkMode           int // 0 no gate, 1 park right after the registration query was answered, 2 right before
+	parked             bool
+	missedEvent        bool // the chain emitted the event while this member's routine ran without any subscription
 	submitFault        bool
 	nSigs              int
 }
@@ -68,6 +71,7 @@ type c47World struct {
 	mempool  []*c47Tx
 	stop     bool
 
+	gates      *verifsim.Gates // scheduling points at the chain queries (C47 only)
 	slotOracle bool
 	// onSubmit lets other properties (C13) observe the submission arguments.
 	onSubmit func(m *c47Member, idx beaconchain.GroupMemberIndex, res *beaconchain.DKGResult, sigs map[beaconchain.GroupMemberIndex][]byte)
@@ -107,7 +111,20 @@ func (c *c47Chain) IsGroupRegistered(key []byte) (bool, error) {
 		c.w.r.Fault("registration-query-error")
 		return false, errors.New("injected: query failed")
 	}
+	park := func() {
+		c.m.parked = true
+		c.w.gates.PointAs(fmt.Sprintf("query-%d", c.m.idx), "IsGroupRegistered")
+		c.m.parked = false
+	}
+	if c.w.gates != nil && c.m.parkMode == 2 {
+		park()
+	}
 	reg := c.w.accepted && bytes.Equal(c.w.accKey, key)
+	if c.w.gates != nil && c.m.parkMode == 1 {
+		// the answer is already fixed; the member sits between the query and
+		// whatever it does next while the simulator moves the chain on
+		defer park()
+	}
 	if reg {
 		c.m.observedRegistered = true
 		c.w.r.Probe("entered-after-group-registered")
@@ -126,6 +143,9 @@ func (c *c47Chain) SubmitDKGResult(idx beaconchain.GroupMemberIndex, res *beacon
 		}
 		if m.notified {
 			w.r.Failf("C47:dkg-submit-after-notified", "member %d called SubmitDKGResult at its block %d after its DKGResultSubmission callback had been invoked (system quiescent since)", m.idx, height)
+		}
+		if m.missedEvent {
+			w.r.Failf("C47:dkg-submit-after-unobserved-result", "member %d called SubmitDKGResult at its block %d although a result had been accepted and its event emitted while the member's submission routine was already running - the member had no subscription at that moment and never learned about it", m.idx, height)
 		}
 		if m.observedRegistered {
 			w.r.Failf("C47:dkg-submit-after-registered", "member %d called SubmitDKGResult at its block %d although IsGroupRegistered had told it the group is registered", m.idx, height)
@@ -157,8 +177,13 @@ func (c *c47Chain) SubmitDKGResult(idx beaconchain.GroupMemberIndex, res *beacon
 func (w *c47World) accept(by int, key []byte) {
 	w.accepted, w.accBy, w.accKey = true, by, key
 	for _, m := range w.members[1:] {
-		if m.entered && !m.done && len(m.handlers) > 0 {
-			m.eventPending = true
+		if m.entered && !m.done {
+			if len(m.handlers) > 0 {
+				m.eventPending = true
+			} else {
+				m.missedEvent = true
+				w.r.Probe("event-emitted-while-member-unsubscribed")
+			}
 		}
 	}
 }
@@ -169,11 +194,19 @@ func (w *c47World) onRequest(m *c47Member, target uint64) {
 	if !w.slotOracle {
 		return
 	}
+	if target < w.start+uint64(m.idx-1) {
+		w.r.Failf("C47:dkg-slot-too-early-for-index", "member %d waits for block %d with submission start %d: the %d members with lower indexes cannot all have distinct earlier slots", m.idx, target, w.start, m.idx-1)
+		w.stop = true
+	}
 	for _, o := range w.members[1:] {
 		if o == m {
 			continue
 		}
 		for _, s := range o.slots {
+			if s != target && (o.idx < m.idx) != (s < target) {
+				w.r.Failf("C47:dkg-slot-order", "members %d and %d wait for blocks %d and %d: the order of the slots does not follow the member indexes", o.idx, m.idx, s, target)
+				w.stop = true
+			}
 			if s == target {
 				w.r.Failf("C47:dkg-slot-shared", "members %d and %d both wait for block %d to submit (start %d, step %d, n %d)", o.idx, m.idx, target, w.start, w.step, w.n)
 				w.stop = true
@@ -207,7 +240,8 @@ func init() {
 
 func c47Run(t *testing.T, r *verifsim.Run) {
 	tp := r.T
-	w := &c47World{r: r, slotOracle: true}
+	w := &c47World{r: r, slotOracle: true, gates: verifsim.NewGates()}
+	defer w.gates.ReleaseAll()
 	w.n = 2 + tp.Choose("n", 7)
 	minH := w.n/2 + 1
 	w.h = minH + tp.Choose("h", w.n-minH+1)
@@ -233,6 +267,7 @@ func c47Run(t *testing.T, r *verifsim.Run) {
 			m.nSigs = need + tp.Choose("n-sigs-ok", w.n-need+1)
 		}
 		m.regFault = tp.Chance("reg-fault", 1, 20)
+		m.parkMode = tp.Weighted("park-at-query", 3, 2, 1)
 		m.submitFault = tp.Chance("submit-fault", 1, 15)
 		mm := m
 		m.blocks.OnRequest = func(target, cur uint64) { w.onRequest(mm, target) }
@@ -300,7 +335,11 @@ func c47Run(t *testing.T, r *verifsim.Run) {
 			if m.blocks.Height() < horizon {
 				kinds["block"] = append(kinds["block"], ev{"block", m.idx})
 			}
-			if m.eventPending && len(m.handlers) > 0 {
+			if m.parked {
+				// no callback while the member sits at the query: a callback and
+				// an already reached slot would become ready in the same instant
+				kinds["release"] = append(kinds["release"], ev{"release", m.idx})
+			} else if m.eventPending && len(m.handlers) > 0 {
 				kinds["notify"] = append(kinds["notify"], ev{"notify", m.idx})
 			}
 		}
@@ -310,8 +349,8 @@ func c47Run(t *testing.T, r *verifsim.Run) {
 		if outside > 0 && !w.accepted && steps > 2 {
 			kinds["outside"] = []ev{{"outside", 0}}
 		}
-		order := []string{"enter", "block", "mine", "notify", "outside"}
-		weight := map[string]int{"enter": 8, "block": 6, "mine": 5, "notify": 4, "outside": 2}
+		order := []string{"enter", "block", "mine", "notify", "outside", "release"}
+		weight := map[string]int{"enter": 8, "block": 6, "mine": 5, "notify": 4, "outside": 2, "release": 4}
 		avail, ws := []string{}, []int{}
 		for _, kd := range order {
 			if len(kinds[kd]) > 0 {
@@ -360,6 +399,12 @@ func c47Run(t *testing.T, r *verifsim.Run) {
 				r.Probe("late-transaction-reverted")
 				r.Logf("mined tx of member=%d: reverted", tx.member)
 			}
+		case "release":
+			m := w.members[pick.a]
+			w.gates.Release(fmt.Sprintf("query-%d", m.idx))
+			synctest.Wait()
+			r.Fault("member-held-at-chain-query")
+			r.Logf("release member=%d accepted=%v done=%v", m.idx, w.accepted, m.done)
 		case "notify":
 			m := w.members[pick.a]
 			waiting := len(m.slots) > 0
